@@ -945,4 +945,60 @@ where
             rw [sub_cons hc] at hb
             exact nearestCall_none obj p (some (t, i)) x (here ++ [i]) n hn hnc q r b hp hb
 
+/-! ### argument forms of `get_referable`, stepwise following -/
+
+/-- the child position the first segment selects -/
+def firstStep (t : Tree) (s : Str) : Except Err Nat :=
+  if !isNamespace t.kind then .error .typeError
+  else if t.kind = .list then
+    match pyInt s with
+    | none => .error .valueError
+    | some i => if i < 0 then .error .keyError else
+      match t.children[i.toNat]? with
+      | none => .error .keyError
+      | some _ => .ok i.toNat
+  else match findChild t.children s with
+    | none => .error .keyError
+    | some k => match t.children[k]? with
+      | none => .error .keyError
+      | some _ => .ok k
+
+theorem getReferable_cons (t : Tree) (s : Str) (rest : List Str) :
+    getReferable t (s :: rest) = match firstStep t s with
+      | .error e => .error e
+      | .ok k => match t.children[k]? with
+        | none => .error .keyError
+        | some c => (getReferable c rest).map (k :: ·) := by
+  conv => lhs; unfold getReferable
+  unfold firstStep
+  by_cases h1 : (!isNamespace t.kind) = true
+  · simp [h1]
+  · by_cases h2 : t.kind = .list
+    · simp only [h2, if_true]
+      cases pyInt s with
+      | none => simp
+      | some i =>
+        by_cases h3 : i < 0
+        · simp [h3]
+        · simp only [h3]
+          cases h4 : t.children[i.toNat]? <;> simp [h4]
+    · simp only [h1, h2]
+      cases findChild t.children s with
+      | none => simp
+      | some k => cases h4 : t.children[k]? <;> simp [h4]
+
+theorem followStepwise_eq : ∀ (segs : List Str) (t : Tree), followStepwise t segs = getReferable t segs
+  | [], t => by simp [followStepwise, getReferable]
+  | s :: rest, t => by
+    have ih := followStepwise_eq rest
+    simp only [followStepwise, getReferableArg]
+    rw [getReferable_cons t s [], getReferable_cons t s rest]
+    cases firstStep t s with
+    | error e => rfl
+    | ok k =>
+      cases h4 : t.children[k]? with
+      | none => simp [h4]
+      | some c =>
+        simp [getReferable, Except.map, sub, h4, ih]
+
 end Basyx.Tree
